@@ -217,6 +217,31 @@ def mk_dur(r):
                     hours=r.get("h", 0), minutes=r.get("mi", 0), seconds=r.get("s", 0))
 
 
+# --------------------------------------------------------------------------- watchdog
+class cpu_watchdog:
+    """Raise `exc` inside the block once it has used `seconds` of this process's own CPU time (ITIMER_VIRTUAL), so that
+    a library call that never returns becomes an observable outcome.  CPU time, not wall-clock time: a loaded machine
+    (other checks running on the same cores) cannot turn a slow-but-terminating call into a reported hang."""
+
+    def __init__(self, seconds, exc):
+        self.seconds, self.exc = seconds, exc
+
+    def _fire(self, signum, frame):
+        raise self.exc()
+
+    def __enter__(self):
+        import signal
+        self._old = signal.signal(signal.SIGVTALRM, self._fire)
+        signal.setitimer(signal.ITIMER_VIRTUAL, self.seconds)
+        return self
+
+    def __exit__(self, *a):
+        import signal
+        signal.setitimer(signal.ITIMER_VIRTUAL, 0)
+        signal.signal(signal.SIGVTALRM, self._old)
+        return False
+
+
 # --------------------------------------------------------------------------- recorder
 class Recorder:
     """Collects events (ints / strings / bools / lists / dicts only; no null, no floats)."""
